@@ -34,6 +34,12 @@ What the subclass below adds to the interpreter of translate_c15 (each item is n
                             checked: their bodies are analysed and must write nothing); `register_with_basis(cb, self)` is
                             accepted for the new object only (the registration of C04's basis contexts).
   recursion                 refused (the base interpreter's rule for `propagate` is not wanted here).
+  references kept           `list / tuple / dict / zip / enumerate / max / min / sum (x)` and `getattr(x, "a")` keep the references of
+                            their arguments; the numpy functions in EXTRA_VIEWS (ravel, reshape, squeeze, einsum, array(copy=...), ...)
+                            may return views; a reference to a shared object stored into a container (`d["h"] = ham`) is kept when
+                            the container belongs to a new object and refused otherwise (an index with a slice inside a tuple,
+                            `a[i, :] = v`, is a numpy element store: values are copied).
+  read-only properties      `@property` methods of a class whose location is typed are analysed as calls of the getter.
 """
 import ast
 import os
@@ -94,6 +100,14 @@ ARG_TYPES = {("arg:ham", ()): "Hamiltonian", ("arg:sbi", ()): "SystemBathInterac
 # branch conditions decided by ARG_TYPES: the axis of a bath correlation function is a TimeAxis (DFunction.get_Fourier_transform)
 CONDS = {"isinstance(t, TimeAxis)": True}
 FUNC = "func"
+REF_KEEPING = {"list", "tuple", "dict", "zip", "enumerate", "max", "min", "sum"}
+EXTRA_VIEWS = {"numpy.ravel", "numpy.reshape", "numpy.squeeze", "numpy.diagonal", "numpy.diag", "numpy.atleast_1d", "numpy.atleast_2d",
+               "numpy.atleast_3d", "numpy.ascontiguousarray", "numpy.asfortranarray", "numpy.asanyarray", "numpy.asmatrix", "numpy.swapaxes",
+               "numpy.moveaxis", "numpy.rollaxis", "numpy.expand_dims", "numpy.flip", "numpy.fliplr", "numpy.flipud", "numpy.rot90",
+               "numpy.broadcast_to", "numpy.broadcast_arrays", "numpy.split", "numpy.array_split", "numpy.hsplit", "numpy.vsplit",
+               "numpy.dsplit", "numpy.require", "numpy.nan_to_num", "numpy.real_if_close", "numpy.trim_zeros", "numpy.einsum",
+               "numpy.lib.stride_tricks.as_strided", "numpy.lib.stride_tricks.sliding_window_view", "numpy.take_along_axis",
+               "numpy.matrix", "numpy.frombuffer", "numpy.ndarray"}
 
 
 # ----------------------------------------------------------------------------------------------- class index
@@ -104,6 +118,7 @@ class CtorIndex(T.Index):
         import warnings
         self.classes, self.functions, self.where = {}, {}, {}
         self.imports, self.pure_prefixes, self.props = {}, {}, set()
+        self.getters = set()          # (class, name) of @property methods
         files = list(T.FILES) + [f for f in EXTRA_FILES if f not in T.FILES]
         for f in files:
             path = repo + T.PKG + f
@@ -119,6 +134,9 @@ class CtorIndex(T.Index):
                         raise Untranslatable("two classes named %s in the analysed files" % node.name)
                     self.classes[node.name] = node
                     self.where[node.name] = f
+                    for s in node.body:
+                        if isinstance(s, ast.FunctionDef) and any(ast.unparse(d) == "property" for d in s.decorator_list):
+                            self.getters.add((node.name, s.name))
                     for s in node.body:       # X = BasisManagedComplexArray("X"): attribute X is stored as _X
                         if isinstance(s, ast.Assign) and isinstance(s.value, ast.Call) and ast.unparse(s.value.func).endswith(("Array", "ManagedReal", "ManagedComplex")) \
                                 and s.value.args and isinstance(s.value.args[0], ast.Constant) and isinstance(s.value.args[0].value, str):
@@ -204,6 +222,12 @@ class CtorAnalysis(T.Analysis):
                     if o[0] != FUNC:
                         out.add(o)
                     continue
+                cls = self.types.get((o[1], o[2]))
+                if cls is not None and cls in self.ix.classes:
+                    c, fn = self.ix.method(cls, node.attr)
+                    if fn is not None and (c, node.attr) in self.ix.getters:
+                        out |= flat(self.inline(st, self.ix.where[c], c, fn, frozenset([("loc", o[1], o[2], False)]), [], {}, node))
+                        continue
                 own = self.owned(o[1])
                 attr = self.canon(node.attr) if own else node.attr
                 key = (o[1], o[2] + (attr,))
@@ -225,7 +249,31 @@ class CtorAnalysis(T.Analysis):
             return frozenset(out)
         return T.Analysis.ev(self, st, node, read)
 
+    def shared_refs(self, value):
+        """origins of value through which a shared object can be reached"""
+        out = set()
+        for x in flat(value):
+            if x[0] == "loc" and not self.owned(x[1]):
+                out.add(x)
+            elif x[0] == "freshobj" and any(y[0] == "loc" and not self.owned(y[1]) for y in x[1]):
+                out.add(x)
+        return frozenset(out)
+
     def assign(self, st, target, value, value_node):
+        if isinstance(target, ast.Subscript):
+            refs = self.shared_refs(value)
+            numpy_store = isinstance(target.slice, ast.Tuple) and any(isinstance(e, ast.Slice) for e in target.slice.elts)
+            if refs and not numpy_store:
+                for o in flat(self.ev(st, target.value, read=False)):
+                    if o[0] == "loc" and self.owned(o[1]):
+                        key = (o[1], o[2])
+                        new = self.heap.get(key, frozenset([FRESH])) | refs
+                        if new != self.heap.get(key):
+                            self.heap[key] = new
+                            self.heap_changed = True
+                    elif o[0] in ("fresh", "freshobj"):
+                        raise Untranslatable("a reference to a shared object is stored into a container made in the call (%s)"
+                                             % ast.unparse(target))
         if isinstance(target, ast.Attribute):
             base = self.ev(st, target.value)
             fv = flat(value)
@@ -331,6 +379,24 @@ class CtorAnalysis(T.Analysis):
                 self.write(st, frozenset(o for o in flat(a) if o[0] in ("loc", "glob")), None, "any", inplace=True, what=fname)
             self.by_name.add("ssRedfieldRateMatrix")
             return frozenset([FRESH])
+        # ---- builtins that keep the references of their arguments; numpy functions that may return views
+        if isinstance(f, ast.Name) and f.id not in st.env and f.id == "getattr":
+            if len(node.args) >= 2 and isinstance(node.args[1], ast.Constant) and isinstance(node.args[1].value, str) and not node.keywords:
+                v = self.ev(st, ast.Attribute(value=node.args[0], attr=node.args[1].value, ctx=ast.Load()))
+                for a in node.args[2:]:
+                    v = vjoin(v, self.ev(st, a))
+                return v
+            raise Untranslatable("getattr with a computed name")
+        if (isinstance(f, ast.Name) and f.id not in st.env and f.id in REF_KEEPING) or fname in EXTRA_VIEWS \
+                or (fname == "numpy.array" and any(k.arg == "copy" for k in node.keywords)):
+            args, kws = self._args(st, node)
+            if "out" in kws:
+                raise Untranslatable("%s with out=" % fname)
+            out = frozenset([FRESH])
+            for v in args + list(kws.values()):
+                out |= frozenset(x for x in flat(v) if x[0] in ("loc", "freshobj"))
+            self.notes.add("view_functions" if "." in fname else "pure_functions")
+            return out
         # ---- library functions under the names this file imports them with (the base interpreter knows numpy. / scipy. / math.)
         libs = tuple(self.ix.pure_prefixes.get(self.here(), ())) + T.PURE_PREFIXES
         if fname.startswith(libs) and isinstance(f, ast.Attribute) and not _dotted(f):
